@@ -122,6 +122,11 @@ def handle (toks : List String) : String :=
             | some e => String.intercalate " " (showE e)
             | none => "none"
           | _, _ => "bad-op leaf props"
+        | some (t, [d, u, "R"]) => match pOS d, pOS u with
+          | some d, some u => match leafEff mods 40 chain t d u true with
+            | some e => String.intercalate " " (showE e)
+            | none => "none"
+          | _, _ => "bad-op leaf props"
         | _ => "bad-op texpr"
       | none => "bad-op scopes"
     | _ => "bad-op mods"
